@@ -178,6 +178,16 @@ def variant_atom(x, ty, arms):
                     atoms = bool_atom(y[2][0], positive=(verdict == 'succ'))
                     if len(atoms) == 1:
                         return atoms[0]
+                if y.tag == 'call' and _nm(y[1]) == 'checked_sub' and len(y[2]) == 2:
+                    # `v.checked_sub(p.unwrap_or(0))`: subtracting the default 0 cannot fail, so the test is the one on the value that is
+                    # there when there is one -- `v.checked_sub(p)` for a present p
+                    sub = y[2][1]
+                    while sub.tag in ('mut', 'via'):
+                        sub = sub[1] if sub.tag == 'mut' else sub[2]
+                    if sub.tag == 'phi':
+                        rest = [z for z in sub.args if not (z.tag == 'const' and z[1] == 0 and not isinstance(z[1], bool))]
+                        if len(rest) == 1 and len(sub.args) == 2:
+                            return (verdict, 'checked_sub(%s,%s)' % (canon(y[2][0]), canon(rest[0])))
                 return (verdict, canon(x))
     return ('variant', canon(x), arms)
 
